@@ -219,8 +219,9 @@ func (fr *Frame) builtin(b *ssa.Builtin, g *Term, args []Value, c *ssa.CallCommo
 			return []Value{x.length()}
 		case *StrVal:
 			r := mkConst(64, 0)
-			for i := len(x.Alts) - 1; i >= 0; i-- {
-				a := x.Alts[i]
+			xa := x.Alts()
+			for i := len(xa) - 1; i >= 0; i-- {
+				a := xa[i]
 				if a.Opq {
 					in.unsupported(mkAnd(g, a.G), "len of opaque string")
 				}
@@ -389,7 +390,7 @@ func (fr *Frame) builtin(b *ssa.Builtin, g *Term, args []Value, c *ssa.CallCommo
 func (in *Interp) copySlice(g *Term, dst, src *SliceVal, et types.Type) Value {
 	dl, sl := dst.length(), src.length()
 	n := mkIte(mkCmp(OpUlt, dl, sl), dl, sl)
-	maxN := int(min(n.hi, maxArray))
+	maxN := min(int(min(n.hi, maxArray)), src.maxLen(), dst.maxLen())
 	vals := make([]Value, maxN)
 	for j := 0; j < maxN; j++ {
 		vals[j] = in.sliceLoad(src, mkConst(64, uint64(j)), et)
